@@ -67,6 +67,9 @@ def _striped_values(ctx, N, allow_empty=False, kind='float'):
 
 def op_striped_array_max(ctx, e, ops, N, poison):
     vals = _striped_values(ctx, N)
+    if ctx.tape.flag(1, 3):
+        vals = -np.abs(vals) - 0.25          # log-likelihoods, energies: every value below zero
+        ctx.hit('striped_max_of_negative_values')
     ctx.fp('max', N, vals.tobytes())
     ctx.scenario['values'] = vals.tolist()
     outs = run_world(ctx, N, lambda r: ops.striped_array_max(vals[r::N].copy()), poison)
